@@ -234,6 +234,8 @@ def m_future_poll(it, a, ty, callee):
         target = it.load(p)
     if isinstance(target, Adt) and target.ty.startswith('{'):
         return it.call_body(it.closure_body(target.ty), [Adt(PIN, 0, [p])] + list(a[1:]))
+    if isinstance(target, ShutdownFut):
+        return m_shutdown_poll(it, p, a[1])
     if hasattr(target, 'chan'):
         from .env import m_send_poll
         return m_send_poll(it, [p] + list(a[1:]), ty, callee)
@@ -296,6 +298,28 @@ def m_poll_next_unpin(it, a, ty, callee):
     return it.call('<%s as futures::Stream>::poll_next' % m.group(1), [Adt(PIN, 0, [a[0]]), a[1]], ty)
 
 
+class ShutdownFut(Model):
+    """tokio::io::util::Shutdown: polling it polls `poll_shutdown` of the writer"""
+    __slots__ = ('writer',)
+
+    def __init__(self, writer):
+        self.writer = writer
+
+
+def m_shutdown(it, a, ty, callee):
+    return ShutdownFut(a[0])
+
+
+def m_shutdown_poll(it, p, cx):
+    fut = it.load(p) if isinstance(p, Ptr) else p
+    w = fut.writer
+    target = it.load(w)
+    if isinstance(target, Adt) and target.ty == 'Box':
+        w = box_ptr(target)
+    rt = it.runtime_type(w)
+    return it.call('<%s as tokio::io::AsyncWrite>::poll_shutdown' % rt, [Adt(PIN, 0, [w]), cx], None)
+
+
 def m_to_vec(it, a, ty, callee):
     return Seq(as_bytes(it, a[0]), 'vec')
 
@@ -320,6 +344,8 @@ def install(it):
     A = it.add_model
     A(r'(?:std|core)::slice::<impl \[u8\]>::to_vec', m_to_vec)
     A(r'bytes::Bytes::to_vec', m_to_vec)
+    A(r'<.* as tokio::io::AsyncWriteExt>::shutdown', m_shutdown)
+    A(r"<tokio::io::util::shutdown::Shutdown<'_, .*> as (?:std::future|futures)::Future>::poll", m_future_poll)
     A(r'<.* as std::future::IntoFuture>::into_future', lambda it, a, ty, c: a[0])
     A(r'<.* as futures::StreamExt>::poll_next_unpin', m_poll_next_unpin)
     A(r'(?:std|core)::slice::<impl \[&\[u8\]\]>::concat::<u8>', m_concat)
